@@ -271,7 +271,9 @@ def compute_ir(
     ir_integrals = list(itertools.chain(*irs))
 
     integral_domains = {
-        i.expression.name: set(j[0] for j in i.expression.integrand.keys()) for a in irs for i in a
+        i.expression.name: list(dict.fromkeys(j[0] for j in i.expression.integrand.keys()))
+        for a in irs
+        for i in a
     }
     diagonalise = TensorPart.from_str(str(options["part"]))
     ir_forms = [
